@@ -67,6 +67,10 @@ type G struct {
 	idx     int
 	vc      vclock
 	syncSeq uint64
+	// lockSpins counts consecutive re-locks of the mutex the goroutine itself released last, with nobody
+	// else progressing in between (a spin-lock loop does that for ever, a loop that locks once per element
+	// a bounded number of times)
+	lockSpins int
 }
 
 type chanInfo struct {
@@ -577,6 +581,7 @@ func (m *MutexState) Lock() {
 		// re-locking right after our own unlock with nothing changed in between: a spin iteration
 		g.markFruitless(h64("lock", m.id, m.ver))
 		g.spinLock = true
+		g.lockSpins++
 	} else {
 		g.hash = h64(g.hash, "lock", m.id, m.ver)
 		g.spinLock = false
@@ -668,6 +673,7 @@ func (w *WGState) Wait() {
 }
 
 func (x *Exec) progress(g *G) {
+	g.lockSpins = 0
 	g.cycled = false
 	g.lastFruitless = false
 	g.lastUnlock = nil
@@ -675,6 +681,7 @@ func (x *Exec) progress(g *G) {
 		if o != g && !o.done {
 			// whatever the others polled in vain may succeed now: they start a new pass
 			o.cycled = false
+			o.lockSpins = 0
 			if len(o.fruitless) > 0 {
 				o.fruitless = map[uint64]bool{}
 			}
@@ -766,6 +773,16 @@ func (x *Exec) switchFrom(g *G, exiting bool) {
 			if x.isYielder(o) {
 				yielders = append(yielders, o)
 			} else {
+				en = append(en, o)
+			}
+		}
+	}
+	if len(en) == 0 && len(yielders) > 0 {
+		// a goroutine that merely takes the same mutex several times in a row (once per element of a batch,
+		// say) looks like a spin-lock loop for its first iterations: only a goroutine that has re-locked 64
+		// times running with nobody else able to move is one
+		for _, o := range yielders {
+			if o.pend.kind == opLock && o.lockSpins < 64 {
 				en = append(en, o)
 			}
 		}
